@@ -101,7 +101,17 @@ class UrlProblem(Problem):
         if isinstance(e, ast.Constant):
             return "Const"
         if isinstance(e, ast.Name):
+            if f"{e.id}.str" in env and e.id not in env:
+                # a result record whose `str` field was overwritten in this function: (marker, class of the field)
+                return ("Const", env[f"{e.id}.str"])
             return env.get(e.id, "Raw")
+        if isinstance(e, ast.Attribute) and e.attr == "str" and isinstance(e.value, ast.Name):
+            if f"{e.value.id}.str" in env:
+                return env[f"{e.value.id}.str"]
+            rec = env.get(e.value.id)
+            if isinstance(rec, tuple) and len(rec) == 2 and rec[0] == "Const":
+                return rec[1]
+            return "Raw"
         if _is_facade_call(self.c, e, "normalizeLink"):
             return "NormUnchecked"
         if isinstance(e, ast.Tuple):
@@ -109,8 +119,8 @@ class UrlProblem(Problem):
         if isinstance(e, ast.Call) and self.depth < 2:
             # a private helper of the rule's module: the class of what it returns (component-wise for tuples)
             cs = self.c.cg.site_of.get(e)
-            if cs is not None and len(cs.callees) == 1 and cs.kind in ("direct", "method") and cs.callees[0].module is self.f.module \
-                    and cs.callees[0] is not self.f:
+            if cs is not None and len(cs.callees) == 1 and cs.kind in ("direct", "method") and cs.callees[0] is not self.f \
+                    and (cs.callees[0].module is self.f.module or cs.callees[0].module.rel.startswith("helpers/")):
                 g = cs.callees[0]
                 cache = self.c.__dict__.setdefault("_url_ret", {})
                 if g not in cache:
@@ -133,6 +143,9 @@ class UrlProblem(Problem):
         if _env_refs_expr(e):
             return "EnvRef"
         if isinstance(e, ast.IfExp):
+            v = self.validated(e.test)
+            if v is not None and env.get(v) == "NormUnchecked":
+                return worst(self.classify(e.body, {**env, v: "NormChecked"}), self.classify(e.orelse, env))
             return worst(self.classify(e.body, env), self.classify(e.orelse, env))
         if isinstance(e, ast.NamedExpr):
             return self.classify(e.value, env)
@@ -161,6 +174,10 @@ class UrlProblem(Problem):
                 for t in a.targets:
                     if isinstance(t, ast.Name):
                         env[t.id] = cls
+                        env.pop(f"{t.id}.str", None)
+                    elif isinstance(t, ast.Attribute) and t.attr == "str" and isinstance(t.value, ast.Name):
+                        env[f"{t.value.id}.str"] = cls
+                        env.pop(t.value.id, None)
                     elif isinstance(t, (ast.Tuple, ast.List)):
                         comp = cls if isinstance(cls, tuple) and len(cls) == len(t.elts) else None
                         for i_, e in enumerate(t.elts):
@@ -265,9 +282,52 @@ def rule_url(c: Ctx) -> RuleResult:
     # function that parses a destination, each store of `<result>.pos` lies behind the passing edge of a validateLink test.
     from .switch_rules import _edge_dominated
     ndest = 0
+    # wrappers: a function every return of which is the (possibly adjusted) result object of parseLinkDestination
+    wrappers: dict[str, tuple[Func, bool]] = {}
+    for g in sorted(c.p.all_funcs(), key=lambda x: x.qual):
+        rets = [x for x in own_nodes(g.node) if isinstance(x, ast.Return) and x.value is not None]
+        locs = {n.targets[0].id for n in own_nodes(g.node) if isinstance(n, ast.Assign) and len(n.targets) == 1 and isinstance(n.targets[0], ast.Name)
+                and isinstance(n.value, ast.Call) and U(n.value.func).split(".")[-1] == "parseLinkDestination"}
+        if g.name != "parseLinkDestination" and rets and locs and all(isinstance(x.value, ast.Name) and x.value.id in locs for x in rets):
+            # does the wrapper report a destination that fails validateLink as not ok?  (every path from the failing edge of the
+            # validator test to the exit stores <result>.ok = False)
+            gcfg = c.cfg(g)
+            reports = False
+            vt = [tn for tn in gcfg.nodes if tn.kind == "test" and tn.ast is not None
+                  and any(isinstance(y, ast.Call) and U(y.func).split(".")[-1] == "validateLink" for y in ast.walk(tn.ast))]
+            if vt:
+                reports = True
+                for tn in vt:
+                    neg = isinstance(tn.ast, ast.UnaryOp) and isinstance(tn.ast.op, ast.Not)
+                    starts = [m for (m, l) in tn.succ if l == ("T" if neg else "F")]
+                    seen_: set[int] = set()
+                    work_ = list(starts)
+                    while work_:
+                        m = work_.pop()
+                        if m.id in seen_:
+                            continue
+                        seen_.add(m.id)
+                        if m.kind == "stmt" and isinstance(m.ast, ast.Assign) and any(
+                                isinstance(t, ast.Attribute) and t.attr == "ok" and isinstance(m.ast.value, ast.Constant) and m.ast.value.value is False
+                                for t in m.ast.targets):
+                            continue
+                        if m is gcfg.exit:
+                            reports = False
+                            break
+                        work_ += [x for (x, l) in m.succ if l != "exc"]
+            wrappers[g.name] = (g, reports)
+
+    def dest_call(v: ast.AST) -> str | None:
+        if isinstance(v, ast.Call):
+            nm = U(v.func).split(".")[-1]
+            if nm == "parseLinkDestination" or nm in wrappers:
+                return nm
+        return None
     for f in sorted(phase, key=lambda f: f.qual):
+        if f.name in wrappers:
+            continue
         res_names = {n.targets[0].id for n in own_nodes(f.node) if isinstance(n, ast.Assign) and len(n.targets) == 1 and isinstance(n.targets[0], ast.Name)
-                     and isinstance(n.value, ast.Call) and U(n.value.func).split(".")[-1] == "parseLinkDestination"}
+                     and dest_call(n.value)}
         if not res_names:
             continue
         cfg = c.cfg(f)
@@ -283,10 +343,15 @@ def rule_url(c: Ctx) -> RuleResult:
                 continue
             from ..reach import Reaching
             rds = Reaching(cfg).at(n, v.value.id)
-            if not any(d.kind == "assign" and isinstance(d.value, ast.Call) and U(d.value.func).split(".")[-1] == "parseLinkDestination" for d in rds):
+            srcs = {dest_call(d.value) for d in rds if d.kind == "assign" and d.value is not None} - {None}
+            if not srcs:
                 continue          # the name holds another helper's result here (the title)
             ndest += 1
             ok = any(_edge_dominated(cfg, tn, "T", n) for tn in tests)
+            if not ok and all(s_ in wrappers and wrappers[s_][1] for s_ in srcs):
+                # the wrapper validates and reports a rejected destination as not ok: the store must be behind `if <res>.ok`
+                oktests = [tn for tn in cfg.nodes if tn.kind == "test" and tn.ast is not None and U(tn.ast) == f"{v.value.id}.ok"]
+                ok = any(_edge_dominated(cfg, tn, "T", n) for tn in oktests)
             r.add(f"{f.short}|dest-cursor|{alpha(f, n.ast)[:50]}", c.where(f, n.ast), f.short, U(n.ast)[:60], "discharged" if ok else "violation",
                   "the cursor passes the destination only behind a successful validateLink test" if ok else
                   "the cursor is moved past a parsed destination on a path where validateLink did not succeed: a rejected destination "
